@@ -38,7 +38,8 @@ FUNCTIONS = ["ebpfcat/ebpf.py:Expression._sum/__mul__/__truediv__/"
              "(conversion to the destination)",
              "ebpfcat/ebpf.py:Binary.calculate, Memory.calculate"]
 F = 100000
-RANGE = 1 << 26
+RANGE = 1 << 26          # operands of products and quotients
+RANGE_WIDE = 1 << 40     # operands of sums, differences and comparisons
 OPS = ["+", "-", "*", "/", "//", "%"]
 FIXED_LEAVES = [["L", "x"], ["M", "x"], ["R", "x"]]
 INT_LEAVES = [["L", "q"], ["M", "q"], ["R", "sr"]]
@@ -67,6 +68,20 @@ def esig(x):
     if x[0] == "rbin":
         return f"(py{x[2]}{x[1]}{esig(x[3])})"
     return lsig(x)
+
+
+def ops_of(st):
+    out = []
+
+    def walk(x):
+        if isinstance(x, list) and x and x[0] in ("bin", "rbin"):
+            out.append(x[1])
+            walk(x[2]) if x[0] == "bin" else None
+            walk(x[3])
+    if st[0] == "aug":
+        out.append(st[2])
+    walk(st[-1])
+    return out
 
 
 def ssig(st):
@@ -277,6 +292,7 @@ def check_stmt(stmt, q, res, want_sample=False):
     g, fin = merge([(x.guard, x.state) for x in normal])
     mem0 = st0.mem
     leafvals, leafaddr, ranges = {}, {}, []
+    rng = RANGE_WIDE if set(ops_of(stmt)) <= {"+", "-"} else RANGE
     for path, i in plan.info.items():
         if i[0] in ("var", "reg"):
             name = i[1] if i[0] == "var" else i[3]
@@ -284,7 +300,7 @@ def check_stmt(stmt, q, res, want_sample=False):
             raw = load(mem0, bv(addr), 8)
             leafvals[path] = RV(raw, fmt == "x")
             leafaddr[path] = (addr, fmt)
-            ranges.append(And(raw >= bv(-RANGE), raw < bv(RANGE)))
+            ranges.append(And(raw >= bv(-rng), raw < bv(rng)))
         else:
             leafvals[path] = const_rv(i[1])
     ref = Ref()
@@ -459,7 +475,7 @@ def check_cmp(stmt, q, res, want_sample):
         raw = load(mem0, bv(addr), 8)
         vals[path] = RV(raw, fmt == "x")
         leafaddr[path] = (addr, fmt)
-        ranges.append(And(raw >= bv(-RANGE), raw < bv(RANGE)))
+        ranges.append(And(raw >= bv(-RANGE_WIDE), raw < bv(RANGE_WIDE)))
     ref = Ref()
     anyf = vals["a"].fixed or vals["b"].fixed
     x = ref.fx(vals["a"]) if anyf else vals["a"].v
@@ -543,9 +559,12 @@ def main(tier, replay_file=None):
                    "conversions, augmented assignments, a seeded sample of "
                    "depth-2 trees with exact (+/-) inner nodes, comparisons "
                    f"{CMPS} with at least one fixed-point side",
-            operand_values=f"every variable operand in [-2^26, 2^26) in its "
-                           "representation (all values in that range); all "
-                           "scaled intermediates then fit 64 bits",
+            operand_values="every variable operand in [-2^26, 2^26) in its "
+                           "representation for statements with a product, "
+                           "quotient or remainder, in [-2^40, 2^40) for "
+                           "sums, differences, conversions and comparisons "
+                           "(all values in the range); all scaled "
+                           "intermediates then fit 64 bits",
             outside="operands beyond 2^26; narrower operand formats (their "
                     "scaled values leave 32 bits almost at once); nested "
                     "products / quotients (intermediate drops are not fixed "
